@@ -4,6 +4,7 @@
 //   C15  UniqueHandle closes exactly once (ownership histories) + out-of-band handle transfer over handle-bearing types
 // Histories: every sequence up to a bounded length over a concrete operation alphabet (exhaustive), random beyond.
 #define VF_RT_MAIN
+#include <memory>
 #include <set>
 #include <stdexcept>
 #include <unordered_map>
@@ -286,41 +287,49 @@ struct CountPolicy {
   static int Release(int* v) { int t = 0; std::swap(*v, t); if (t) released()[t]++; return t; }
   static constexpr std::uint64_t HandleType() { return 9; }
 };
-using UH = nop::UniqueHandle<CountPolicy>;
-struct DUH : UH { using UH::UH; };          // a class derived from UniqueHandle<Policy>, the shape of UniqueFileHandle: moving it into a UniqueHandle<Policy> transfers ownership
+// a second policy: derived from the library's DefaultHandlePolicy<int, -1> (empty value -1, so 0 is a real resource - as for file descriptors), inheriting
+// Default / IsValid / Release and adding only the Close that counts
+struct DerivedPolicy : nop::DefaultHandlePolicy<int, -1> {
+  static std::unordered_map<int, int>& closed() { static std::unordered_map<int, int> c; return c; }
+  static std::unordered_map<int, int>& released() { static std::unordered_map<int, int> c; return c; }
+  static void Close(int* v) { if (*v != -1) closed()[*v]++; *v = -1; }
+  static constexpr std::uint64_t HandleType() { return 9; }
+};
+template <typename Pol> struct HUH : nop::UniqueHandle<Pol> { using nop::UniqueHandle<Pol>::UniqueHandle; };          // a class derived from UniqueHandle<Policy>, the shape of UniqueFileHandle: moving it into a UniqueHandle<Policy> transfers ownership
 enum HOp { H_NEW, H_MOVE_ASSIGN, H_MOVE_CTOR, H_RELEASE, H_CLOSE, H_DESTROY, H_ASSIGN_TEMP, H_ASSIGN_EMPTY, H_CTOR_FROM_DERIVED, H_ASSIGN_FROM_DERIVED, H_NOPS };
 static const char* const kHNames[] = {"destroy+construct(id)", "move-assign", "move-construct(temp)", "release()", "close()", "destroy+construct()", "= UniqueHandle{id}", "= UniqueHandle{}", "destroy+move-construct(from derived handle owning id)", "= std::move(derived handle owning id)"};
-struct HandleRun {
+template <typename Pol, int kEmpty> struct HandleRunT {
+  using UH = nop::UniqueHandle<Pol>; using DUH = HUH<Pol>;
   static const int N = 3;
-  UH* h[N]; int own[N] = {0, 0, 0}; int next_id = 1; std::set<int> issued, rel, must_closed;
+  UH* h[N]; int own[N] = {kEmpty, kEmpty, kEmpty}; int next_id = kEmpty + 1; std::set<int> issued, rel, must_closed;
   std::string err;
   void fail(const std::string& key, const std::string& what) { if (err.empty()) err = key + "|" + what; }
-  HandleRun() { CountPolicy::closed().clear(); CountPolicy::released().clear(); for (int i = 0; i < N; i++) h[i] = new UH(); }
-  ~HandleRun() { for (int i = 0; i < N; i++) delete h[i]; }
-  void drop(int id) { if (id) must_closed.insert(id); }
+  HandleRunT() { Pol::closed().clear(); Pol::released().clear(); for (int i = 0; i < N; i++) h[i] = new UH(); }
+  ~HandleRunT() { for (int i = 0; i < N; i++) delete h[i]; }
+  void drop(int id) { if (id != kEmpty) must_closed.insert(id); }
   void step(const OpRec& q) {
     int a = q.a, b = q.b;
     switch (q.op) {
       case H_NEW: { int id = next_id++; issued.insert(id); delete h[a]; drop(own[a]); h[a] = new UH(id); own[a] = id; } break;
-      case H_MOVE_ASSIGN: *h[a] = std::move(*h[b]); if (a != b) { drop(own[a]); own[a] = own[b]; own[b] = 0; } break;
-      case H_MOVE_CTOR: { UH t(std::move(*h[b])); drop(own[b]); own[b] = 0; } break;               // the temporary closes what it took when it dies
-      case H_RELEASE: { int got = h[a]->release(); if (got != own[a]) fail("model:UniqueHandle.release", fmt("release() returned %d, the handle owned %d", got, own[a])); if (own[a]) rel.insert(own[a]); own[a] = 0; } break;
-      case H_CLOSE: h[a]->close(); drop(own[a]); own[a] = 0; break;
-      case H_DESTROY: delete h[a]; drop(own[a]); h[a] = new UH(); own[a] = 0; break;
+      case H_MOVE_ASSIGN: *h[a] = std::move(*h[b]); if (a != b) { drop(own[a]); own[a] = own[b]; own[b] = kEmpty; } break;
+      case H_MOVE_CTOR: { UH t(std::move(*h[b])); drop(own[b]); own[b] = kEmpty; } break;               // the temporary closes what it took when it dies
+      case H_RELEASE: { int got = h[a]->release(); if (got != own[a]) fail("model:UniqueHandle.release", fmt("release() returned %d, the handle owned %d", got, own[a])); if (own[a] != kEmpty) rel.insert(own[a]); own[a] = kEmpty; } break;
+      case H_CLOSE: h[a]->close(); drop(own[a]); own[a] = kEmpty; break;
+      case H_DESTROY: delete h[a]; drop(own[a]); h[a] = new UH(); own[a] = kEmpty; break;
       case H_ASSIGN_TEMP: { int id = next_id++; issued.insert(id); *h[a] = UH(id); drop(own[a]); own[a] = id; } break;
-      case H_ASSIGN_EMPTY: *h[a] = UH(); drop(own[a]); own[a] = 0; break;
-      case H_CTOR_FROM_DERIVED: { int id = next_id++; issued.insert(id); delete h[a]; drop(own[a]); { DUH d(id); h[a] = new UH(std::move(d)); if (d.get() != 0) fail("model:UniqueHandle.moved-from", fmt("a derived handle moved into a UniqueHandle still holds %d", d.get())); } own[a] = id; } break;
-      case H_ASSIGN_FROM_DERIVED: { int id = next_id++; issued.insert(id); { DUH d(id); *h[a] = std::move(d); if (d.get() != 0) fail("model:UniqueHandle.moved-from", fmt("a derived handle move-assigned into a UniqueHandle still holds %d", d.get())); } drop(own[a]); own[a] = id; } break;
+      case H_ASSIGN_EMPTY: *h[a] = UH(); drop(own[a]); own[a] = kEmpty; break;
+      case H_CTOR_FROM_DERIVED: { int id = next_id++; issued.insert(id); delete h[a]; drop(own[a]); { DUH d(id); h[a] = new UH(std::move(d)); if (d.get() != kEmpty) fail("model:UniqueHandle.moved-from", fmt("a derived handle moved into a UniqueHandle still holds %d", d.get())); } own[a] = id; } break;
+      case H_ASSIGN_FROM_DERIVED: { int id = next_id++; issued.insert(id); { DUH d(id); *h[a] = std::move(d); if (d.get() != kEmpty) fail("model:UniqueHandle.moved-from", fmt("a derived handle move-assigned into a UniqueHandle still holds %d", d.get())); } drop(own[a]); own[a] = id; } break;
     }
     check(false);
   }
   void check(bool final) {
     for (int i = 0; i < N; i++) {
       if (h[i]->get() != own[i]) fail("model:UniqueHandle.value", fmt("handle %d holds %d, model says %d", i, h[i]->get(), own[i]));
-      if ((bool)*h[i] != (own[i] != 0)) fail("model:UniqueHandle.bool", "operator bool disagrees with ownership");
+      if ((bool)*h[i] != (own[i] != kEmpty)) fail("model:UniqueHandle.bool", "operator bool disagrees with ownership");
     }
     for (int id : issued) {
-      int c = CountPolicy::closed().count(id) ? CountPolicy::closed()[id] : 0;
+      int c = Pol::closed().count(id) ? Pol::closed()[id] : 0;
       bool owned = false; for (int i = 0; i < N; i++) if (own[i] == id) owned = true;
       if (c > 1) fail("policy:UniqueHandle.closed-twice", fmt("resource %d closed %d times", id, c));
       if (rel.count(id) && c > 0) fail("policy:UniqueHandle.closed-after-release", fmt("resource %d was released and later closed", id));
@@ -329,8 +338,9 @@ struct HandleRun {
       if (final && !rel.count(id) && !owned && c != 1) fail("policy:UniqueHandle.leaked", fmt("resource %d closed %d times over its life", id, c));
     }
   }
-  void finish() { for (int i = 0; i < N; i++) { delete h[i]; drop(own[i]); own[i] = 0; h[i] = new UH(); } check(true); }
+  void finish() { for (int i = 0; i < N; i++) { delete h[i]; drop(own[i]); own[i] = kEmpty; h[i] = new UH(); } check(true); }
 };
+using HandleRun = HandleRunT<CountPolicy, 0>; using HandleRunDerived = HandleRunT<DerivedPolicy, -1>;
 static std::vector<OpRec> handle_alphabet() {
   std::vector<OpRec> al;
   for (int a = 0; a < HandleRun::N; a++) {
@@ -345,8 +355,8 @@ static std::vector<OpRec> handle_alphabet() {
 
 // =================================================================== generic history driver
 template <typename Run> static void finish_run(Run&, bool) {}
-struct HandleRun;
 template <> void finish_run<HandleRun>(HandleRun& r, bool f);
+template <> void finish_run<HandleRunDerived>(HandleRunDerived& r, bool f);
 template <typename Run>
 static void run_histories(const char* type, const char* prop, const std::vector<OpRec>& al, const char* const* names, int exh_len, uint64_t nrandom, int rnd_maxlen, bool with_finish) {
   const Args& ar = args();
@@ -399,6 +409,7 @@ static void run_histories(const char* type, const char* prop, const std::vector<
   if (rep().want_sample(type, 1)) { std::vector<OpRec> s; for (size_t i = 0; i < 4 && i < A; i++) s.push_back(al[(i * 7) % A]); rep().sample(type, J().s("object", type).raw("history", seq_json(s, names)).u("alphabet", A).str(), 1); }
 }
 template <> void finish_run<HandleRun>(HandleRun& r, bool f) { if (f) r.finish(); }
+template <> void finish_run<HandleRunDerived>(HandleRunDerived& r, bool f) { if (f) r.finish(); }
 
 // =================================================================== C13: comparisons and messages
 template <typename A, typename B> static void cmp_pair(const char* what, const nop::Optional<A>& a, const nop::Optional<B>& b, int ka, int kb) {
@@ -423,6 +434,24 @@ static void c13_comparisons() {
     { g_live.clear(); { nop::Optional<TA> a, b; if (sa >= 0) a = TA(sa); if (sb >= 0) b = TA(sb); cmp_pair("tracked-tracked", a, b, sa, sb); if (sb >= 0) { TA v(sb); cmp_value("tracked-tracked", a, v, sa, sb); } } if (!g_live.empty() || !g_fault.empty()) rep().violation("C13:registry:compare", "comparison leaked or used a dead object", ""); g_fault.clear(); }
     { nop::Entry<int, 1> a; nop::Entry<int, 2> b; if (sa >= 0) a = sa; if (sb >= 0) b = sb; cmp_pair("entry-entry", static_cast<const nop::Optional<int>&>(a), static_cast<const nop::Optional<int>&>(b), sa, sb); }
   }
+  // other value kinds: bool, mixed arithmetic, raw and shared pointers against pointers and the nullptr literal (== and != only: the order of unrelated pointers is not a value order)
+  for (int sa = -1; sa < 2; sa++) for (int sb = 0; sb < 2; sb++) {
+    { nop::Optional<bool> a; if (sa >= 0) a = (bool)sa; cmp_value("bool-bool", a, (bool)sb, sa, sb); }
+    { nop::Optional<double> a; if (sa >= 0) a = (double)sa; cmp_value("double-int", a, sb, sa, sb); }
+    { nop::Optional<char> a; if (sa >= 0) a = (char)('a' + sa); cmp_value("char-char", a, (char)('a' + sb), sa, sb); }
+  }
+  { static int cell[2] = {0, 0};
+    struct { const char* name; bool engaged; int* p; } st[] = {{"empty", false, nullptr}, {"engaged(nullptr)", true, nullptr}, {"engaged(&x)", true, &cell[0]}, {"engaged(&y)", true, &cell[1]}};
+    for (auto& q : st) {
+      nop::Optional<int*> o; if (q.engaged) o = q.p; nop::Optional<std::shared_ptr<int>> so; if (q.engaged) so = q.p ? std::shared_ptr<int>(std::shared_ptr<int>(), q.p) : std::shared_ptr<int>();
+      auto chk = [&](const char* what, bool got, bool want) { rep().note_enumerated(true); rep().count("c13_comparisons"); rep().count("c13_pointer_comparisons"); if (got != want) rep().violation(fmt("C13:order:Optional-value:pointer:%s", what), fmt("Optional<pointer> %s: %s = %d, expected %d (an empty Optional equals no value, an engaged one compares its value)", q.name, what, (int)got, (int)want), case_desc("Optional-compare", -1, "pointer")); };
+      const bool isnull = q.engaged && q.p == nullptr;
+      chk("o == nullptr", o == nullptr, isnull); chk("nullptr == o", nullptr == o, isnull); chk("o != nullptr", o != nullptr, !isnull); chk("nullptr != o", nullptr != o, !isnull);
+      chk("o == &x", o == &cell[0], q.engaged && q.p == &cell[0]); chk("&x == o", &cell[0] == o, q.engaged && q.p == &cell[0]); chk("o != &x", o != &cell[0], !(q.engaged && q.p == &cell[0]));
+      int* np = nullptr; chk("o == (int*)nullptr", o == np, isnull); chk("o != (int*)nullptr", o != np, !isnull);
+      chk("shared_ptr: o == nullptr", so == nullptr, isnull); chk("shared_ptr: nullptr == o", nullptr == so, isnull); chk("shared_ptr: o != nullptr", so != nullptr, !isnull);
+      nop::Optional<int*> e2; chk("o == Optional{}", o == e2, !q.engaged); nop::Optional<int*> n2(np); chk("o == Optional{nullptr}", o == n2, isnull);
+    } }
   // nested optionals: rank -2 = empty, -1 = engaged holding an empty inner optional, k >= 0 = engaged holding engaged(k); the same total order applies one level down
   for (int sa = -2; sa < 4; sa++) for (int sb = -2; sb < 4; sb++) {
     using OO = nop::Optional<nop::Optional<int>>;
@@ -506,6 +535,14 @@ static void c15_transfer() {
               rep().count("c15_corrupted_tags");
               if (r4 || (r4.error() != nop::ErrorStatus::UnexpectedHandleType && r4.error() != nop::ErrorStatus::UnexpectedEncodingType) || !s3.log.got.empty())
                 rep().violation("C15:foreign-tag-accepted", fmt("%s: handle type tag %" PRIu64 " changed to %" PRIu64 ": read gave '%s', GetHandle was called %zu time(s)", t.name, tag, tag ^ (1ull << bit), r4 ? "success" : errname(r4.error()), s3.log.got.size()), cd);
+            }
+            // the tags other policies use (0 = DefaultHandlePolicy, 1 = file handles) and the ends of the range: none is a wildcard
+            for (uint64_t other : {0ull, 1ull, 2ull, 0x7full, 0xffull, 0xffffffffull, ~0ull}) { if (other == tag) continue;
+              Enc t3; t3.put_uint(other, Role::TAG, 64); Bytes mb3 = vf::splice(e.out, f.off, f.len, t3.out);
+              Source s3; s3.init(R_LOG, mb3.data(), mb3.size()); void* o4 = t.create(); auto r4 = t.read(s3, o4); t.destroy(o4);
+              rep().count("c15_corrupted_tags"); rep().count("c15_tags_of_other_policies");
+              if (r4 || (r4.error() != nop::ErrorStatus::UnexpectedHandleType && r4.error() != nop::ErrorStatus::UnexpectedEncodingType) || !s3.log.got.empty())
+                rep().violation("C15:foreign-tag-accepted", fmt("%s: handle type tag %" PRIu64 " changed to %" PRIu64 " (another policy's tag): read gave '%s', GetHandle was called %zu time(s)", t.name, tag, other, r4 ? "success" : errname(r4.error()), s3.log.got.size()), cd);
             }
             break;
           }
@@ -598,6 +635,8 @@ int vf::engine_main() {
   if (a.prop == "C15") {
     auto al = handle_alphabet();
     if (a.only_type.empty() || a.only_type == "UniqueHandle") run_histories<HandleRun>("UniqueHandle", "c15", al, kHNames, th ? 5 : 4, th ? 1000000 : 40000, 40, true);
+    // the same histories with a policy derived from the library's DefaultHandlePolicy<int, -1> (shorter exhaustive part: the alphabet is the same)
+    if (a.only_type.empty() || a.only_type == "UniqueHandle<derived policy>") run_histories<HandleRunDerived>("UniqueHandle<derived policy>", "c15", al, kHNames, th ? 4 : 3, th ? 400000 : 20000, 40, true);
     if (a.only_type.empty() || a.only_type != "UniqueHandle") c15_transfer();
     return 0;
   }
